@@ -14,13 +14,25 @@ use rust_rule_engine::{EngineConfig, Facts, KnowledgeBase, Rule, RustRuleEngine}
 use std::collections::{BTreeMap, BTreeSet, HashMap};
 use std::sync::{Arc, Mutex};
 
-const GROUPS: [&str; 3] = ["MAIN", "g1", "g2"];
+/// Names of the three agenda groups, by style (index 0 is always the default group MAIN). Styles 1..3 are names that
+/// stand in a prefix / separator / case relation to each other: `orders` and `orders::priority`, `a.b` and `a`,
+/// `MAIN::x` and `main`. Group names are opaque strings to the statement.
+const GROUP_TABLES: [[&str; 3]; 4] = [["MAIN", "g1", "g2"], ["MAIN", "orders", "orders::priority"], ["MAIN", "a.b", "a"], ["MAIN", "MAIN::x", "main"]];
+
+thread_local! {
+    /// style of the case being run (set at the start of every part's run function)
+    static GROUP_STYLE: std::cell::Cell<usize> = const { std::cell::Cell::new(0) };
+}
+
+fn gname(g: usize) -> &'static str {
+    GROUP_TABLES[GROUP_STYLE.with(|c| c.get())][g]
+}
 const NFLAGS: usize = 4;
 
 #[derive(Clone, Debug, Hash)]
 enum Act {
     SetFlag(usize, bool),
-    Activate(usize), // index into GROUPS
+    Activate(usize), // index into the group table
 }
 
 #[derive(Clone, Debug, Hash)]
@@ -176,13 +188,13 @@ fn to_rule(r: &R) -> Rule {
     for a in &r.acts {
         actions.push(match a {
             Act::SetFlag(k, v) => ActionType::Set { field: format!("F.k{}", k), value: Value::Boolean(*v) },
-            Act::Activate(g) => ActionType::ActivateAgendaGroup { group: GROUPS[*g].to_string() },
+            Act::Activate(g) => ActionType::ActivateAgendaGroup { group: gname(*g).to_string() },
         });
     }
     let mut rule = Rule::new(r.name.clone(), cond, actions).with_salience(r.salience).with_no_loop(r.no_loop).with_lock_on_active(r.lock);
     rule.enabled = r.enabled;
     if let Some(g) = r.agenda {
-        rule = rule.with_agenda_group(GROUPS[g].to_string());
+        rule = rule.with_agenda_group(gname(g).to_string());
     }
     if let Some(a) = r.activation {
         rule = rule.with_activation_group(format!("a{}", a));
@@ -285,7 +297,7 @@ fn render(c: &Case) -> String {
             r.enabled,
             r.no_loop,
             r.lock,
-            GROUPS[r.agenda.unwrap_or(0)],
+            gname(r.agenda.unwrap_or(0)),
             r.activation.map(|a| format!("a{}", a)),
             r.eff,
             r.exp,
@@ -302,8 +314,14 @@ fn render(c: &Case) -> String {
 
 pub fn run(s: &mut Src, ctx: &mut Ctx) -> Verdict {
     let mut c = gen_case(s, ctx.exh);
+    // group names: half of the random cases use one of the look-alike name tables (a pure function of the case)
+    let style = if ctx.exh == 0 { [0, 1, 0, 2, 0, 3][(c.rules.len() + c.steps.len()) % 6] } else { 0 };
+    GROUP_STYLE.with(|g| g.set(style));
     if probe_only() {
         return Verdict::Pass;
+    }
+    if style > 0 {
+        ctx.label("agenda-group-names-related-by-prefix-or-case");
     }
     // Domain restriction (not a finding): a lock-on-active rule whose own actions re-activate its own group.
     // Whether that firing belongs to the old or the new activation is not stated, so the shape is not generated.
@@ -433,7 +451,7 @@ fn judge(c: &Case, ctx: &mut Ctx) -> Verdict {
                 }
             }
             Step::ActivateApi(g) => {
-                engine.activate_agenda_group(GROUPS[*g].to_string());
+                engine.activate_agenda_group(gname(*g).to_string());
                 m.activate(*g);
                 pending_api.push(*g);
                 *activations.entry(*g).or_default() += 1;
@@ -442,7 +460,7 @@ fn judge(c: &Case, ctx: &mut Ctx) -> Verdict {
                 if !pending_api.is_empty() {
                     focus_op_while_pending = true;
                 }
-                engine.set_agenda_focus(GROUPS[*g]);
+                engine.set_agenda_focus(gname(*g));
                 m.activate(*g);
                 *activations.entry(*g).or_default() += 1;
             }
@@ -483,8 +501,8 @@ fn judge(c: &Case, ctx: &mut Ctx) -> Verdict {
             }
         }
         let ag = engine.get_active_agenda_group().to_string();
-        if ag != GROUPS[m.active()] {
-            return Verdict::fail("active-agenda-group", format!("after step {} {:?}: engine focus {} but model {}", si, st, ag, GROUPS[m.active()]));
+        if ag != gname(m.active()) {
+            return Verdict::fail("active-agenda-group", format!("after step {} {:?}: engine focus {} but model {}", si, st, ag, gname(m.active())));
         }
     }
     for r in &c.rules {
@@ -518,6 +536,7 @@ fn judge(c: &Case, ctx: &mut Ctx) -> Verdict {
 // ---------------------------------------------------------------------------------------------------------------
 
 pub fn run_c03_agenda(s: &mut Src, ctx: &mut Ctx) -> Verdict {
+    GROUP_STYLE.with(|g| g.set(0));
     let mut c = gen_case(s, 0);
     c.max_cycles = [1, 2, 3, 4, 6, 8, 12][s.below(7)];
     // history alphabet of this part: execute / focus / reset / enable / flip (pop, clear and the API activation have
@@ -626,7 +645,7 @@ pub fn run_c03_agenda(s: &mut Src, ctx: &mut Ctx) -> Verdict {
                             None => true,
                         };
                         let eligible = r.enabled
-                            && GROUPS[grp] == focus
+                            && gname(grp) == focus
                             && active_at(r, *slot)
                             && !(r.no_loop && no_loop_fired.contains(&r.name))
                             && !(r.lock && lock_fired.get(&grp).map(|x| x.contains(&r.name)).unwrap_or(false));
@@ -643,7 +662,7 @@ pub fn run_c03_agenda(s: &mut Src, ctx: &mut Ctx) -> Verdict {
                 }
             }
             Step::Focus(g) => {
-                engine.set_agenda_focus(GROUPS[*g]);
+                engine.set_agenda_focus(gname(*g));
                 lock_fired.insert(*g, BTreeSet::new());
             }
             Step::ResetNoLoop => {
@@ -830,6 +849,7 @@ pub fn run_timeout(s: &mut Src, ctx: &mut Ctx) -> Verdict {
 }
 
 pub fn run_many(s: &mut Src, ctx: &mut Ctx) -> Verdict {
+    GROUP_STYLE.with(|g| g.set(0));
     let n = 21 + s.below(40);
     let nsal = 1 + s.below(4);
     let rules: Vec<R> = (0..n)
